@@ -241,7 +241,7 @@ def velocities(rng, hyd, n, cb, probe=None):
     except Exception:
         tvJ = None
     vj_window = None
-    if tvJ is not None and np.isfinite(tvJ) and abs(tvJ - vJ) > 1e-5:
+    if tvJ is not None and np.isfinite(tvJ) and abs(tvJ - vJ) > 1e-4 * vJ:
         vj_window = tuple(sorted((tvJ, vJ)))
     for i in range(n):
         r = rng.random()
